@@ -16,6 +16,9 @@ type Fact struct {
 	At   int    // number of steps executed when the condition was assumed (set for State.Taken)
 	key  string // canonical key (== form, variable identity)
 	cpol bool   // polarity of the canonical form
+	// for `x == <constant>` facts: the variable and the constant's exact value
+	eqVar   types.Object
+	eqConst string
 	vars map[types.Object]bool
 }
 
@@ -320,12 +323,27 @@ func (w *Walker) okImplies(st *State, e ast.Expr, pol bool) {
 func (w *Walker) assume(st *State, e ast.Expr, pol bool) bool {
 	f := Fact{Expr: e, Pol: pol, vars: VarsIn(w.Info, e)}
 	f.key, f.cpol = canonical(w.Info, e, pol)
+	if b, ok := Unparen(e).(*ast.BinaryExpr); ok && (b.Op == token.EQL || b.Op == token.NEQ) {
+		x, y := b.X, b.Y
+		if tv, isC := w.Info.Types[x]; isC && tv.Value != nil {
+			x, y = y, x
+		}
+		if tv, isC := w.Info.Types[y]; isC && tv.Value != nil {
+			if v, isVar := ObjOf(w.Info, Unparen(x)).(*types.Var); isVar && !v.IsField() {
+				f.eqVar, f.eqConst = v, tv.Value.ExactString()
+			}
+		}
+	}
 	for _, g := range st.Facts {
 		if g.key == f.key {
 			if g.cpol != f.cpol {
 				return false
 			}
 			return true // already known
+		}
+		// x == c1 known true: x == c2 (c2 != c1) cannot also be true
+		if f.eqVar != nil && g.eqVar == f.eqVar && g.cpol && f.cpol && g.eqConst != f.eqConst {
+			return false
 		}
 	}
 	st.Facts = append(st.Facts, f)
@@ -410,6 +428,15 @@ func (w *Walker) learn(st *State, lhs, rhs ast.Expr) {
 		if b, isB := ObjOf(w.Info, rhs).(*types.Const); isB && b.Parent() == types.Universe && (b.Name() == "true" || b.Name() == "false") {
 			w.assume(st, id, b.Name() == "true")
 			return
+		}
+		// x = <constant>: x == constant holds (a kind chosen into a local and switched on later)
+		if tv, isC := w.Info.Types[rhs]; isC && tv.Value != nil {
+			if bt, isBasic := v.Type().Underlying().(*types.Basic); isBasic && bt.Info()&(types.IsInteger|types.IsString) != 0 {
+				eq := &ast.BinaryExpr{X: id, Op: token.EQL, OpPos: rhs.Pos(), Y: rhs}
+				w.Info.Types[eq] = types.TypeAndValue{Type: types.Typ[types.Bool]}
+				w.assume(st, eq, true)
+				return
+			}
 		}
 		// x = wrapIf…(y) with y known non-nil: x is non-nil
 		if call, isCall := rhs.(*ast.CallExpr); isCall && NilPreserving != nil {
